@@ -36,6 +36,9 @@ type Fill struct {
 	Block []ops.Op `json:"block,omitempty"`
 	// Twice: the fill is a blend of the register it is written to, written two times in a row.
 	Twice bool `json:"twice,omitempty"`
+	// Clear: a gradient whose stops are all fully transparent (a path that is drawn, and under
+	// the Src operator clears what it covers).
+	Clear bool `json:"clear,omitempty"`
 }
 
 type Path struct {
@@ -328,7 +331,18 @@ func checkPixels(c Case) error {
 		// Independent of the decomposition above: with draw.Src the first drawn
 		// path replaces the whole target rectangle, so what was in the
 		// destination before cannot show through anywhere in it.
-		if c.Src && z2.n > 0 {
+		// (whether a path is drawn at all is the format's rule, not the Renderer's word: a flat
+		// colour that is not fully transparent, or a gradient of two or more valid stops, inside
+		// the level-of-detail range)
+		mustDraw := 0
+		var vm spec.VM
+		vm.Reset(pal)
+		for _, o := range prog {
+			if pp := vm.Step(o, c.H); pp != nil && (pp.Kind == spec.PaintFlat || pp.Kind == spec.PaintGradient) && vm.LOD0 <= float32(c.H) && float32(c.H) < vm.LOD1 {
+				mustDraw++
+			}
+		}
+		if c.Src && (z2.n > 0 || mustDraw > 0) {
 			other := newImage(c.Alpha, own, color.RGBA{0x70, 0x05, 0x60, 0xd0})
 			zo := vec.NewRasterizer(other)
 			zo.DrawOp = draw.Src
@@ -396,11 +410,15 @@ func genFill(t *rapid.T, indirect bool) Fill {
 			out = append(out, ops.OpSetNReg(uint8(6-j), false, g.Matrix[j]))
 		}
 		out = append(out, ops.OpSetCSel(g.Bits.CBase))
+		clear := rapid.IntRange(0, 5).Draw(t, "clear") == 0
 		for i := range g.Offsets {
+			if clear {
+				g.Colors[i] = color.RGBA{}
+			}
 			out = append(out, ops.OpSetCReg(0, true, ops.RGBAv(g.Colors[i])), ops.OpSetNReg(0, true, g.Offsets[i]))
 		}
 		out = append(out, ops.OpSetCSel(g.Reg), ops.OpSetCReg(0, false, ops.RGBAv(spec.EncodeGradientBits(g.Bits))))
-		return Fill{Gradient: true, Block: out}
+		return Fill{Gradient: true, Block: out, Clear: clear}
 	}
 	if !indirect {
 		c := ops.RGBAv(gen.PremulColor(t, "flat"))
@@ -560,6 +578,12 @@ func TestPixelRelations(t *testing.T) {
 			}
 			if p.LOD != nil {
 				labels = append(labels, "level-of-detail-range-around-the-target-height")
+			}
+			if p.Fill.Clear {
+				labels = append(labels, "gradient-of-fully-transparent-stops")
+				if len(c.Paths) == 1 && c.Src {
+					labels = append(labels, "only-path-is-a-fully-transparent-gradient,DrawOp=Src")
+				}
 			}
 			if p.Fill.Twice {
 				labels = append(labels, "self-referential-blend-written-twice-in-a-row")
